@@ -236,6 +236,8 @@ func (h *Hist13) keys() []pkey {
 		switch op.K {
 		case "compile", "bulk":
 			ks = append(ks, pkey{"compile", h.Engines[op.Eng], op.Prog.Src, op.Prog.Env, ""})
+		case "bulkinvoke":
+			ks = append(ks, pkey{"invoke", h.Engines[op.Eng], op.Prog.Src, op.Prog.Env, op.Prog.Env})
 		case "invoke":
 			c := h.Ops[op.C]
 			if c.K != "compile" {
@@ -405,6 +407,30 @@ func runHist13(h *Hist13, x *evalCtx) hist13Result {
 					valObs(o, v, err)
 					o.Debug = txt
 				})
+			case "bulkinvoke":
+				// N rounds of compile + invoke of one source under one typing, every Callable
+				// dropped at once; every round is observed separately and must give the
+				// pristine result (the first deviating round is what gets compared)
+				env0 := op.Prog.Env
+				cspec := h.Engines[op.Eng]
+				for j := 0; j < op.N; j++ {
+					r := x.observe(false, func(o *obs) {
+						c, err := engines[op.Eng].Compile(op.Prog.Src, envMakers[env0]())
+						if err != nil {
+							o.Class = "cerr"
+							return
+						}
+						v, dbg, err := callWith(cspec, c, envMakers[env0]())
+						valObs(o, v, err)
+						o.Debug = dbg
+					})
+					if j == 0 {
+						got[i] = r
+					} else if diffObs(got[i], r, false) != "" {
+						got[i] = r
+						break
+					}
+				}
 			case "bulk":
 				// N compilations of one source against fresh, equally typed environments;
 				// the Callables are dropped at once (many dead compile-time environments)
@@ -562,10 +588,17 @@ func genHist13(r *rng) *Hist13 {
 		e := r.intn(ne)
 		p := pickGeneric(r, h.Engines[e].UserFuns)
 		rounds := 3 + r.intn(6)
-		if r.chance(0.5) {
-			q := p
-			q.Env = genericEnvs[r.intn(4)]
-			h.Ops = append(h.Ops, H13Op{K: "bulk", Eng: e, Prog: &q, N: 20 + r.intn(60)})
+		if r.chance(0.6) {
+			// many dead compilations under one typing, a collection, many attempts under another
+			ea := genericEnvs[r.intn(4)]
+			eb := genericEnvs[(indexOf(genericEnvs, ea)+2)%4] // the other typing class
+			q1, q2 := p, p
+			q1.Env, q2.Env = ea, eb
+			h.Ops = append(h.Ops, H13Op{K: "bulk", Eng: e, Prog: &q1, N: 30 + r.intn(90)})
+			h.Ops = append(h.Ops, H13Op{K: "bulkinvoke", Eng: e, Prog: &q2, N: 10 + r.intn(30), GCBefore: true})
+			if r.chance(0.5) {
+				h.Ops = append(h.Ops, H13Op{K: "bulkinvoke", Eng: e, Prog: &q1, N: 10 + r.intn(20), GCBefore: true})
+			}
 		}
 		for j := 0; j < rounds; j++ {
 			q := p
@@ -601,6 +634,15 @@ func genHist13(r *rng) *Hist13 {
 	}
 	sortFaults(h.Sim.Faults)
 	return h
+}
+
+func indexOf(xs []string, x string) int {
+	for i, y := range xs {
+		if y == x {
+			return i
+		}
+	}
+	return 0
 }
 
 func sortFaults(fs []simrt.Fault) {
